@@ -47,12 +47,14 @@ func (s *Aggregate) LocalTimeoutRule(view hotstuff.View, syncInfo hotstuff.SyncI
 	return timeoutMsg, nil
 }
 
-func (s *Aggregate) RemoteTimeoutRule(currentView, timeoutView hotstuff.View, timeouts []hotstuff.TimeoutMsg) (hotstuff.SyncInfo, error) {
+func (s *Aggregate) RemoteTimeoutRule(_, timeoutView hotstuff.View, timeouts []hotstuff.TimeoutMsg) (hotstuff.SyncInfo, error) {
 	tc, err := s.auth.CreateTimeoutCert(timeoutView, timeouts)
 	if err != nil {
 		return hotstuff.SyncInfo{}, fmt.Errorf("failed to create timeout certificate: %w", err)
 	}
-	aggQC, err := s.auth.CreateAggregateQC(currentView, timeouts)
+	// the timeout messages were signed for the timed-out view, so that is the view the
+	// aggregate QC must name (the collector itself may still be in an earlier view)
+	aggQC, err := s.auth.CreateAggregateQC(timeoutView, timeouts)
 	if err != nil {
 		return hotstuff.SyncInfo{}, fmt.Errorf("failed to create aggregate quorum certificate: %w", err)
 	}
